@@ -51,6 +51,64 @@ theorem scanLine_found_bound (o cl : UInt8) (cs ne : Bool) (l : Bytes) (i op cso
   | case9 c rest i op cso _ _ _ _ _ _ ih => intro h; have := ih h; simp only [List.length_cons]; omega
   | case10 c rest i op cso _ _ _ _ ih => intro h; have := ih h; simp only [List.length_cons]; omega
 
+theorem getElem?_shift' (pre suf : Bytes) (k m : Nat) (hm : m = pre.length + k) : (pre ++ suf)[m]? = suf[k]? := by
+  subst hm
+  rw [List.getElem?_append_right (by omega)]
+  congr 1; omega
+
+/-- the index `scanLine` reports is the index of a closer byte -/
+theorem scanLine_found_closer (o cl : UInt8) (cs ne : Bool) (l : Bytes) (i op cso j : Nat) :
+    scanLine o cl cs ne l i op cso = .found j → l[j - i]? = some cl := by
+  fun_induction scanLine o cl cs ne l i op cso with
+  | case1 => intro h; simp at h
+  | case2 c rest i op cso hc run n ih =>
+    intro h
+    have hb := (scanLine_found_bound _ _ _ _ _ _ _ _ _ h).1
+    have hs : run.1 ++ run.2 = rest := spanB_append (· == 96) rest
+    rw [← ih h, ← hs]
+    exact getElem?_shift' (c :: run.1) run.2 _ _ (by simp only [List.length_cons]; omega)
+  | case3 c rest i op cso h1 h2 ih =>
+    intro h
+    have hb := (scanLine_found_bound _ _ _ _ _ _ _ _ _ h).1
+    rw [← ih h]
+    cases rest with
+    | nil => simp at h2
+    | cons d r' =>
+      exact getElem?_shift' [c, d] r' _ _ (by simp only [List.length_cons, List.length_nil]; omega)
+  | case4 c rest i op cso h1 h2 h3 run ih =>
+    intro h
+    have hb := (scanLine_found_bound _ _ _ _ _ _ _ _ _ h).1
+    have hs : run.1 ++ run.2 = rest := spanB_append (· == 96) rest
+    rw [← ih h, ← hs]
+    exact getElem?_shift' (c :: run.1) run.2 _ _ (by simp only [List.length_cons]; omega)
+  | case5 c rest i op cso _ _ _ _ hc _ =>
+    intro h
+    simp only [Scan.found.injEq] at h
+    subst h
+    simp at hc ⊢
+    exact hc
+  | case6 c rest i op cso _ _ _ _ _ _ ih =>
+    intro h
+    have hb := (scanLine_found_bound _ _ _ _ _ _ _ _ _ h).1
+    rw [← ih h]
+    exact getElem?_shift' [c] rest _ _ (by simp only [List.length_cons, List.length_nil]; omega)
+  | case7 => intro h; simp at h
+  | case8 c rest i op cso _ _ _ _ _ _ _ ih =>
+    intro h
+    have hb := (scanLine_found_bound _ _ _ _ _ _ _ _ _ h).1
+    rw [← ih h]
+    exact getElem?_shift' [c] rest _ _ (by simp only [List.length_cons, List.length_nil]; omega)
+  | case9 c rest i op cso _ _ _ _ _ _ ih =>
+    intro h
+    have hb := (scanLine_found_bound _ _ _ _ _ _ _ _ _ h).1
+    rw [← ih h]
+    exact getElem?_shift' [c] rest _ _ (by simp only [List.length_cons, List.length_nil]; omega)
+  | case10 c rest i op cso _ _ _ _ ih =>
+    intro h
+    have hb := (scanLine_found_bound _ _ _ _ _ _ _ _ _ h).1
+    rw [← ih h]
+    exact getElem?_shift' [c] rest _ _ (by simp only [List.length_cons, List.length_nil]; omega)
+
 /-! ### SkipSpaces -/
 
 /-- the inner loop of SkipSpaces over (a suffix of) the peeked line: every `Advance(1)` is inside the line -/
